@@ -24,6 +24,19 @@ from vlib.pyvc import SRec
 
 TC = "compiler.front_end.type_check"
 KINDS = ["int", "bool", "enumA", "enumB", "opaque"]
+
+# Two DIFFERENT enums with the same short name (nested in two structures): the identity of an enum is its whole canonical
+# name, never its last component (a ghost that gave them different short names would be more forgiving than the real IR).
+ENUM_PATHS = {"enumA": ["Aa", "Kind"], "enumB": ["Bb", "Kind"]}
+
+
+def _enum_ref(kd):
+    return SRec("Reference", {"ghost_name": kd, "canonical_name": SRec("CanonicalName", {"module_file": "m.emb", "object_path": list(ENUM_PATHS[kd])})})
+
+
+def _hashable(interp, r):
+    cn = r.f["canonical_name"]
+    return (cn.f["module_file"],) + tuple(cn.f["object_path"])
 WHICH = {"int": "integer", "bool": "boolean", "enumA": "enumeration", "enumB": "enumeration", "opaque": "opaque"}
 ARITH = ("ADDITION", "SUBTRACTION", "MULTIPLICATION")
 ORDER = ("LESS", "LESS_OR_EQUAL", "GREATER", "GREATER_OR_EQUAL")
@@ -65,7 +78,7 @@ def target_operation():
     for f in (error.error, error.note, error.warn):
         eng.contract(f, lambda interp, *a, **k: SRec("ErrorMessage", {}), f.__name__)
     eng.contract(tc._type_check_expression, lambda interp, e, *a: None, "_type_check_expression")        # operands are already typed
-    eng.contract(ir_util.hashable_form_of_reference, lambda interp, r: r.f["ghost_name"], "hashable_form_of_reference")
+    eng.contract(ir_util.hashable_form_of_reference, _hashable, "hashable_form_of_reference")
 
     def annotate(kind):
         def f(interp, e):
@@ -88,7 +101,7 @@ def target_operation():
         for i, kd in enumerate(kinds):
             t = {"which_type": WHICH[kd]}
             if kd.startswith("enum"):
-                t["enumeration"] = SRec("EnumType", {"name": SRec("Reference", {"ghost_name": kd})})
+                t["enumeration"] = SRec("EnumType", {"name": _enum_ref(kd)})
             args.append(SRec("Expression", {"type": SRec("ExpressionType", t), "which_expression": "field_reference" if is_field[i] else "function",
                                             "source_location": SRec("SourceLocation", {})}))
         res_t = SRec("ExpressionType", {"which_type": None, "enumeration": SRec("EnumType", {"name": SRec("Reference", {})})})
@@ -127,13 +140,13 @@ def target_positional():
     eng.identity(idu.builder)
     for f in (error.error, error.note, error.warn):
         eng.contract(f, lambda interp, *a, **k: SRec("ErrorMessage", {}), f.__name__)
-    eng.contract(ir_util.hashable_form_of_reference, lambda interp, r: r.f["ghost_name"], "hashable_form_of_reference")
+    eng.contract(ir_util.hashable_form_of_reference, _hashable, "hashable_form_of_reference")
     eng.contract(ir_util.find_object, lambda interp, name, ir: name.f["ghost_object"], "find_object")
 
     def expr(kd):
         t = {"which_type": WHICH[kd]}
         if kd.startswith("enum"):
-            t["enumeration"] = SRec("EnumType", {"name": SRec("Reference", {"ghost_name": kd, "canonical_name": SRec("CanonicalName", {"object_path": [kd]})})})
+            t["enumeration"] = SRec("EnumType", {"name": _enum_ref(kd)})
         return SRec("Expression", {"type": SRec("ExpressionType", t), "source_location": SRec("SourceLocation", {}),
                                    "physical_type_alias": SRec("Type", {"source_location": SRec("SourceLocation", {})})})
 
